@@ -31,6 +31,11 @@ Inductive point :=
 | PInsertBarrier      (* INSERT INTO _litestream_lock in barrierTx *)
 | PSealSync           (* "cannot seal wal before passive checkpoint" *)
 | PExecCheckpoint     (* db.execCheckpoint *)
+| PReadHdrMid         (* readWALHeader right after the PRAGMA (FULL / RESTART only) *)
+| PHdrMidDiffers      (* !bytes.Equal(hdr, mid): restarted before the checkpoint *)
+| PSyncPostCopy       (* "cannot copy wal after checkpoint" (post-checkpoint copy) *)
+| PReadHdrMid2        (* readWALHeader after the post-checkpoint copy *)
+| PHdrMid2Differs     (* !bytes.Equal(hdr, mid) on the re-read *)
 | PRollbackBarrier    (* rollback(barrierTx) reports an error *)
 | PBumpSeq            (* db.bumpLitestreamSeq *)
 | PReadHdr2           (* readWALHeader after *)
@@ -99,10 +104,8 @@ Section Ckpt.
     if o PRollbackBoundary then run_deferred ds bnn s else
     run_deferred ds bnn s.
 
-  (** from execCheckpoint on; [bnn]: barrierTx != nil *)
-  Definition after_barrier (ds : list deferred) (bnn : bool) (s : st) : st :=
-    if o PExecCheckpoint then run_deferred ds bnn s else
-    let s := ev ECheckpoint s in
+  (** from the barrier release on; [restarted]: restartedBeforeCheckpoint *)
+  Definition release_and_after (ds : list deferred) (bnn : bool) (restarted : bool) (s : st) : st :=
     (* if barrierTx != nil { if err = rollback(barrierTx); err != nil { return }; barrierTx = nil } *)
     let s1 := if bnn then rollback_tx BarrierTx s else s in
     if bnn && o PRollbackBarrier then run_deferred ds bnn s1 else
@@ -113,8 +116,23 @@ Section Ckpt.
     if o PReadHdr2 then run_deferred ds bnn s else
     if o PHdrEqual then run_deferred ds bnn s else
     if is_passive then run_deferred ds bnn s           (* both outcomes of PSyncAfterPassive return *)
-    else if negb is_truncate && o PFramesLe then run_deferred ds bnn s   (* both outcomes of PSyncAfter return *)
+    else if negb is_truncate && negb restarted && o PFramesLe
+         then run_deferred ds bnn s                    (* both outcomes of PSyncAfter return *)
     else boundary ds bnn s.
+
+  (** from execCheckpoint on; [bnn]: barrierTx != nil *)
+  Definition after_barrier (ds : list deferred) (bnn : bool) (s : st) : st :=
+    if o PExecCheckpoint then run_deferred ds bnn s else
+    let s := ev ECheckpoint s in
+    (* if mode != PASSIVE && mode != TRUNCATE { mid header read; post-checkpoint copy; re-read } *)
+    if negb is_passive && negb is_truncate then
+      if o PReadHdrMid then run_deferred ds bnn s else
+      if o PHdrMidDiffers then release_and_after ds bnn true s else
+      if o PSyncPostCopy then run_deferred ds bnn s else
+      if o PReadHdrMid2 then run_deferred ds bnn s else
+      if o PHdrMid2Differs then release_and_after ds bnn true s
+      else release_and_after ds bnn false s
+    else release_and_after ds bnn false s.
 
   Definition checkpoint_with_executor (s : st) : st :=
     if o PTryLock then s else
@@ -155,7 +173,7 @@ Lemma lock_always_rolled_back_lemma : forall mode o n,
   open s' = [] /\ committed s' = n /\ inserts_rolled_back (trace s') = true /\ no_commit (trace s') = true.
 Proof.
   intros mode o n.
-  unfold checkpoint_with_executor, after_barrier, boundary, is_passive, is_truncate.
+  unfold checkpoint_with_executor, after_barrier, release_and_after, boundary, is_passive, is_truncate.
   destruct mode; cbn [andb negb];
   repeat (match goal with
           | |- context [if o ?p then _ else _] => destruct (o p)
@@ -199,6 +217,14 @@ Example ex_error_after_insert :
   [ECheckpoint; EBump; EBegin BoundaryTx; EInsert BoundaryTx; ERollback BoundaryTx] /\
   committed (checkpoint_with_executor Restart o (mkSt 3 [] [])) = 3.
 Proof. split; reflexivity. Qed.
+
+(** why the placement of the deferred rollback matters (and why
+    [tx_release_discipline] is checked on the regenerated source): if the guard
+    variable is still nil when the seal copy fails, the return runs the deferred
+    closure with nothing to roll back and the barrier transaction stays open *)
+Example late_guard_leaks :
+  open (run_deferred [DBarrier] false (insert_lock BarrierTx (begin_tx BarrierTx (mkSt 0 [] [])))) = [(BarrierTx, 1)].
+Proof. reflexivity. Qed.
 
 (** the property is not a tautology of the state model: committing instead of
     rolling back leaves a row behind *)
